@@ -17,7 +17,8 @@ RULE = ("AC OPF (init flat / pf / results) and DC OPF problems on 2-5 bus meshed
         "transformer (shift 0/30/150/330 deg, tap, rating 1-2 MVA, limit 50-100 %) whose loading limit binds for export and/or import, "
         "dcline setpoints p_mw > 0, < 0 and = 0, controllable gens with own vm_pu setpoints and narrow q limits, 0-2 gens with a controllable "
         "column (30 % fixed) and scaling in {1, 0.5}, controllable/fixed sgens, loads, storages, 0-2 dclines with loss_percent "
-        "in {0,2,5} and loss_mw in {0,1/16}, 15 % of the elements out of service, missing limit columns (NaN) on ext_grids; "
+        "in {0,2,5} and loss_mw in {0,1/16}, 15 % of the elements out of service, missing limit columns (NaN) on ext_grids, gen.min_vm_pu / max_vm_pu columns (40 %), "
+        "ext_grid.controllable True / False (30 %, a fifth of them with an index label that is not the position); "
         "non-trivial = at least two OPF variables besides the ext_grid or a dcline or a fixed generator")
 ASSUMPTIONS = ["PIPS is an oracle: only runs reporting success are judged.  'Within the OPF tolerance' is taken from PIPS' own stopping rule: "
                "max(|g|, h) / (1 + max(|x|, |z|)) < OPF_VIOLATION = 5e-6 with z the slacks of all inequality constraints (variable bounds in p.u., "
@@ -26,7 +27,8 @@ ASSUMPTIONS = ["PIPS is an oracle: only runs reporting success are judged.  'Wit
                "voltages max(1e-5, tol), reproduction flows max(3e-3 MW, 4 tol), voltages max(1e-4, 0.2 tol), dcline law max(3e-4 MW, tol))",
                "power flow (runpp / rundcpp) convergence is an oracle for the reproduction run",
                "sqrt(3) enters the line rating as a positive number s3 (cancels in the theorem); the harness passes numpy's value"]
-TRUSTED = ["white-box capture by swapping the module attribute pandapower.optimal_powerflow.opf in the harness process"]
+TRUSTED = ["white-box capture by swapping the module attribute pandapower.optimal_powerflow.opf in the harness process",
+           "pypower makeYbus / makeSbus / newtonpf._evaluate_Fx called on the captured result ppci for the bus-balance observation"]
 KINDS = ["C16-default-limits-swamp-convergence-test"]   # the two dcline / fixed-gen defects are repaired in /repo (corpus witnesses must pass)
 KIND_COQ = {"gen": "KGen", "ext_grid": "KExt", "sgen": "KSgen", "load": "KLoad", "storage": "KStorage"}
 TOLP, TOLV, TOLL = 1e-4, 1e-5, 5e-2
@@ -66,6 +68,14 @@ def correspondence(ctx, net, ac, desc, terms, pend):
     cap = G.capture(net, ac=ac)
     if "gen" not in cap:
         ctx.count("build_raises:" + type(cap.get("error")).__name__)
+        if "controllable" in net.ext_grid.columns and len(net.ext_grid):
+            # _build_pp_ext_grid reads vm_pu.values[index label]: the model must raise for the same inputs
+            egs = ["{| x_label := %s; x_bus := 0; x_vm := %s; x_on := %s; x_ctrl := (Some %s) |}" % (
+                cq.z(int(idx)), cq.q(float(row["vm_pu"])), cq.b(bool(row["in_service"])), cq.b(bool(row["controllable"])))
+                for idx, row in net.ext_grid.iterrows()]
+            terms.append("match eg_writes %s with Some _ => Base.Out.OS \"ok\" | None => Base.Out.OErr \"IndexError\" end" % cq.lst(egs))
+            pend.append(("ext_grid voltage writes of a build that raised %s" % type(cap.get("error")).__name__,
+                         cq.Err("IndexError") if isinstance(cap.get("error"), IndexError) else "ok", desc))
         return None
     delta = cap["options"]["delta"]
     plim = cap["options"]["p_lim_default"]
@@ -100,11 +110,33 @@ def correspondence(ctx, net, ac, desc, terms, pend):
         for idx, row in gt[cap["is_elements"]["gen"]].iterrows():
             if not bool(np.array([row["controllable"]]).astype(bool)[0]):
                 writes.append((int(bl[int(row["bus"])]), float(row["vm_pu"])))
-    if all(l is not None for l in lims):
+    if all(l is not None for l in lims) and "max_vm_pu" not in gt.columns and "min_vm_pu" not in gt.columns:
         terms.append("run_vm %s %s %s" % (cq.lst(["(%s, %s)" % (cq.q(a), cq.q(b_)) for a, b_ in lims]),
                                           cq.lst(["(%s, %s)" % (cq.nat(k), cq.q(v)) for k, v in writes]), cq.q(delta)))
         pend.append(("bus VMIN/VMAX", [[fr(r[VMIN]), fr(r[VMAX])] for r in cap["bus"]], desc))
         ctx.count("vm_writes_%d" % min(len(writes), 3))
+    # ---- the complete voltage-limit chain (controllable ext_grids, gen.min/max_vm_pu, fixed gens)
+    if all(l is not None for l in lims):
+        def _o(x):
+            return _oq(None if x != x else x)
+        egs = []
+        for idx, row in net.ext_grid.iterrows():
+            ctrl = "None" if "controllable" not in net.ext_grid.columns else "(Some %s)" % cq.b(bool(row["controllable"]))
+            egs.append("{| x_label := %s; x_bus := %s; x_vm := %s; x_on := %s; x_ctrl := %s |}" % (
+                cq.z(int(idx)), cq.nat(int(bl[int(row["bus"])])), cq.q(float(row["vm_pu"])), cq.b(bool(row["in_service"])), ctrl))
+        gis = gt[cap["is_elements"]["gen"]]
+        hmax, hmin = "max_vm_pu" in gt.columns, "min_vm_pu" in gt.columns
+        gl_ = ["(%s, %s, %s)" % (cq.nat(int(bl[int(r_["bus"])])), _o(float(r_["max_vm_pu"])) if hmax else "None",
+                                  _o(float(r_["min_vm_pu"])) if hmin else "None") for _, r_ in gis.iterrows()]
+        fixed = []
+        if "controllable" in gt.columns:
+            fixed = [(int(bl[int(r_["bus"])]), float(r_["vm_pu"])) for _, r_ in gis.iterrows()
+                     if not bool(np.array([r_["controllable"]]).astype(bool)[0])]
+        terms.append("run_vm_chain %s %s %s %s %s %s %s" % (
+            cq.lst(["(%s, %s)" % (_o(a), _o(b_)) for a, b_ in lims]), cq.lst(egs), cq.lst(gl_), cq.b(hmax), cq.b(hmin),
+            cq.lst(["(%s, %s)" % (cq.nat(k), cq.q(v)) for k, v in fixed]), cq.q(delta)))
+        pend.append(("bus VMIN/VMAX through the whole chain", [[fr(r[VMIN]), fr(r[VMAX])] for r in cap["bus"]], desc))
+        ctx.count("vm_chain" + ("_genlimits" if (hmax or hmin) else "") + ("_egctrl" if "controllable" in net.ext_grid.columns else ""))
     # ---- line ratings
     s3 = float(np.sqrt(3.))
     lf, lt = cap["lookups"]["branch"]["line"]
@@ -160,6 +192,9 @@ def compare(ctx, pend, model):
     for (what, impl, desc), mod in zip(pend, model):
         if impl is None:
             continue
+        if what == "balance":
+            compare_balance(ctx, impl, mod, desc)
+            continue
         ctx.corr_checked += 1
         if not _same(impl, mod):
             ctx.disagreement("%s: impl=%s model=%s" % (what, _show(impl), _show(mod)), desc)
@@ -182,7 +217,28 @@ def _show(x):
 
 
 # ------------------------------------------------------------------ oracle
+LAST = {}
+
+
 def run_opf(net, ac, init="flat"):
+    import pandapower.optimal_powerflow as om
+    orig = om.opf
+
+    def wrap(ppci, ppopt):
+        r = orig(ppci, ppopt)
+        LAST["res"] = {k: (np.array(r[k]).copy() if k in ("bus", "gen", "branch") else r[k]) for k in ("bus", "gen", "branch", "baseMVA", "success")}
+        return r
+
+    LAST.pop("res", None)
+    LAST.pop("pf_net", None)
+    om.opf = wrap
+    try:
+        return _run_opf(net, ac, init)
+    finally:
+        om.opf = orig
+
+
+def _run_opf(net, ac, init="flat"):
     try:
         if not ac:
             pp.rundcopp(net)
@@ -340,6 +396,21 @@ def check_constraints(ctx, net, ac, desc, init="flat", control=True):
                 if et == "gen" and ac and abs(float(res.vm_pu.at[i]) - float(tab.vm_pu.at[i])) > TOLV_:
                     bad.append(("spec", "fixed gen %d: vm=%.6f, setpoint %.6f" % (i, float(res.vm_pu.at[i]), float(tab.vm_pu.at[i]))))
     if ac:
+        # declared voltage limits of gens (gen.min_vm_pu / max_vm_pu)
+        share = {}
+        for i in net.gen.index:
+            if bool(net.gen.in_service.at[i]):
+                share[int(net.gen.bus.at[i])] = share.get(int(net.gen.bus.at[i]), 0) + 1
+        for i in net.gen.index:
+            if not bool(net.gen.in_service.at[i]):
+                continue
+            v = float(net.res_gen.vm_pu.at[i])
+            lo = float(net.gen.min_vm_pu.at[i]) if "min_vm_pu" in net.gen.columns else float("nan")
+            hi = float(net.gen.max_vm_pu.at[i]) if "max_vm_pu" in net.gen.columns else float("nan")
+            if (lo == lo and v < lo - TOLV_) or (hi == hi and v > hi + TOLV_):
+                ctx.count("gen_vm_limit_violated" + ("_shared_bus" if share.get(int(net.gen.bus.at[i]), 0) >= 2 else ""))
+                bad.append(("spec", "gen %d vm_pu=%.6f outside its own limits [%s, %s]" % (i, v, lo, hi)))
+    if ac:
         for i in net.ext_grid.index:
             if bool(net.ext_grid.in_service.at[i]) and ("controllable" not in net.ext_grid.columns or not bool(net.ext_grid.controllable.at[i])):
                 v = float(net.res_bus.vm_pu.at[net.ext_grid.bus.at[i]])
@@ -425,6 +496,7 @@ def reproduce(ctx, net, ac, desc, Fg):
             pp.rundcpp(n2)
     except Exception as e:
         return [("spec", "power flow with the OPF dispatch does not run: %s %s" % (type(e).__name__, str(e)[:200]))]
+    LAST["pf_net"] = n2
     worst = 0.0
     what = ""
     # network state and branch flows (the split of reactive power between several voltage-controlling elements at one
@@ -484,6 +556,111 @@ def reproduce(ctx, net, ac, desc, Fg):
     return out
 
 
+def _c(z):
+    return "(mkC %s %s)" % (cq.q(float(np.real(z))), cq.q(float(np.imag(z))))
+
+
+def balance(ctx, net, desc, terms, pend):
+    """C16_opf_point_is_pf_point on the real code: the OPF's final V put into the power flow's own equations (its Ybus,
+    its Sbus built from the dispatch, its pv / pq sets) leaves no larger mismatch than the OPF's own balance constraints;
+    and the model's Sbus / g / F against makeSbus, the OPF's mismatch and newtonpf._evaluate_Fx"""
+    from pandapower.pypower.makeSbus import makeSbus
+    from pandapower.pypower.makeYbus import makeYbus
+    from pandapower.pypower.newtonpf import _evaluate_Fx
+    from pandapower.pypower.idx_bus import VM, VA
+    r, n2 = LAST.get("res"), LAST.get("pf_net")
+    if r is None or n2 is None or not n2.get("converged", False) or "internal" not in n2._ppc or "Sbus" not in n2._ppc["internal"]:
+        ctx.count("balance_skipped")
+        return []
+    base = float(r["baseMVA"])
+    buses = [int(b) for b in net.bus.index]
+    lo, lp = net._pd2ppc_lookups["bus"], n2._pd2ppc_lookups["bus"]
+    nb = len(buses)
+    I = n2._ppc["internal"]
+    if len(r["bus"]) != nb or I["Ybus"].shape[0] != nb:
+        ctx.count("balance_skipped_shape")
+        return []
+    Vo = r["bus"][:, VM] * np.exp(1j * np.deg2rad(r["bus"][:, VA]))
+    Yo = makeYbus(base, r["bus"], r["branch"])[0]
+    So = makeSbus(base, r["bus"], r["gen"])
+    g = Vo * np.conj(Yo * Vo) - So
+    Vp = np.zeros(nb, dtype=complex)
+    for b in buses:
+        Vp[int(lp[b])] = Vo[int(lo[b])]
+    Yp, Sp = I["Ybus"], np.asarray(I["Sbus"])
+    pv, pq, ref = np.asarray(I["pv"]).astype(int), np.asarray(I["pq"]).astype(int), np.asarray(I["ref"]).astype(int)
+    F = _evaluate_Fx(Yp, Vp, Sp, ref, pv, pq)
+    gmax = float(max(np.max(np.abs(g.real)), np.max(np.abs(g.imag))))
+    fmax = float(np.max(np.abs(F))) if len(F) else 0.0
+    out = []
+    ctx.count("balance_checked")
+    # the transfer law of a dcline holds within the OPF's tolerance only: its residual enters the power flow's setpoint
+    slack = 1e-9 + (opf_tol(net, True) if len(net.dcline) else 0.0)
+    if fmax > gmax + slack:
+        out.append(("spec", "the OPF's V leaves a mismatch of %.3e p.u. in the equations of the power flow with the dispatch as setpoints, "
+                            "but only %.3e p.u. in the OPF's own balance constraints" % (fmax, gmax)))
+    if LAST.get("balance_terms", 0) >= 12:
+        return out
+    LAST["balance_terms"] = LAST.get("balance_terms", 0) + 1
+    # ---- model: elements from the tables and the OPF's result tables, buses in the order of net.bus
+    pos = {b: k for k, b in enumerate(buses)}
+    els = []
+
+    def el(kind, bus, on, var, p, q):
+        p, q = (0.0 if p != p else p), (0.0 if q != q else q)
+        els.append("{| l_kind := %s; l_bus := %s; l_on := %s; l_var := %s; l_p := %s; l_q := %s; l_xp := 0; l_xq := 0 |}" % (
+            kind, cq.nat(pos[int(bus)]), cq.b(bool(on)), cq.b(bool(var)), cq.q(float(p)), cq.q(float(q))))
+    for i in net.ext_grid.index:
+        el("KExt", net.ext_grid.bus.at[i], net.ext_grid.in_service.at[i], False, net.res_ext_grid.p_mw.at[i], net.res_ext_grid.q_mvar.at[i])
+    for i in net.gen.index:
+        el("KGen", net.gen.bus.at[i], net.gen.in_service.at[i], False, net.res_gen.p_mw.at[i], net.res_gen.q_mvar.at[i])
+    for t, kd in (("sgen", "KSgen"), ("load", "KLoad"), ("storage", "KStorage")):
+        for i in net[t].index:
+            el(kd, net[t].bus.at[i], net[t].in_service.at[i], bool(net[t].controllable.at[i]) if "controllable" in net[t].columns else False,
+               net["res_" + t].p_mw.at[i], net["res_" + t].q_mvar.at[i])
+    for i in net.dcline.index:
+        on = bool(net.dcline.in_service.at[i])
+        el("KGen", net.dcline.from_bus.at[i], on, False, -net.res_dcline.p_from_mw.at[i], -net.res_dcline.q_from_mvar.at[i])
+        el("KGen", net.dcline.to_bus.at[i], on, False, -net.res_dcline.p_to_mw.at[i], -net.res_dcline.q_to_mvar.at[i])
+    Yd = Yp.toarray()
+    Ym = cq.lst([cq.lst([_c(Yd[int(lp[b1]), int(lp[b2])]) for b2 in buses]) for b1 in buses])
+    Vm_ = cq.lst([_c(Vo[int(lo[b])]) for b in buses])
+    inv = {int(lp[b]): pos[b] for b in buses}
+    terms.append("run_balance %s %s %s %s %s %s %s 1" % (cq.q(base), cq.nat(nb), cq.lst(els), Ym, Vm_,
+                                                       cq.lst([cq.nat(inv[int(k)]) for k in pv]), cq.lst([cq.nat(inv[int(k)]) for k in pq])))
+    vc = set(int(net.ext_grid.bus.at[i]) for i in net.ext_grid.index if bool(net.ext_grid.in_service.at[i]))
+    impl = {"So": [So[int(lo[b])] for b in buses], "Sp": [Sp[int(lp[b])] for b in buses],
+            "g": [float(x) for x in [g[int(lo[b])].real for b in buses] + [g[int(lo[b])].imag for b in buses]],
+            "F": [float(x) for x in F], "pvpq": [inv[int(k)] for k in list(pv) + list(pq)], "pq": [inv[int(k)] for k in pq],
+            "tolp": 1e-9 + (opf_tol(net, True) if len(net.dcline) else 0.0)}
+    pend.append(("balance", impl, desc))
+    return out
+
+
+def compare_balance(ctx, impl, mod, desc):
+    ctx.corr_checked += 1
+    if not isinstance(mod, list) or len(mod) != 5:
+        ctx.disagreement("bus balance: model gives %r" % (mod,), desc)
+        return
+    so, sp, g, Fm, _ = mod
+    nb = len(impl["So"])
+    bad = []
+    for k in range(nb):
+        if abs(complex(float(so[k][0]), float(so[k][1])) - impl["So"][k]) > 1e-9:
+            bad.append("Sbus of the OPF at bus position %d: impl %r model %r" % (k, impl["So"][k], [float(x) for x in so[k]]))
+        # the power flow's Sbus: active part wherever it has an equation, reactive part at its PQ buses
+        if k in impl["pvpq"] and abs(float(sp[k][0]) - impl["Sp"][k].real) > impl["tolp"]:
+            bad.append("Re Sbus of the power flow at bus position %d: impl %r model %r" % (k, impl["Sp"][k].real, float(sp[k][0])))
+        if k in impl["pq"] and abs(float(sp[k][1]) - impl["Sp"][k].imag) > impl["tolp"]:
+            bad.append("Im Sbus of the power flow at bus position %d: impl %r model %r" % (k, impl["Sp"][k].imag, float(sp[k][1])))
+    if len(g) != len(impl["g"]) or any(abs(float(a) - b_) > 1e-8 for a, b_ in zip(g, impl["g"])):
+        bad.append("g of the OPF: impl %s model %s" % (impl["g"], [float(x) for x in g]))
+    if len(Fm) != len(impl["F"]) or any(abs(float(a) - b_) > 1e-8 + impl["tolp"] for a, b_ in zip(Fm, impl["F"])):
+        bad.append("F of the power flow: impl %s model %s" % (impl["F"], [float(x) for x in Fm]))
+    if bad:
+        ctx.disagreement("; ".join(bad[:3]), desc)
+
+
 def one_case(ctx, net, ac, tag, terms, pend, sample=False, init="flat"):
     desc = {"net": pp.to_json(net), "ac": ac, "init": init}
     cap = correspondence(ctx, net, ac, desc, terms, pend)
@@ -506,6 +683,8 @@ def one_case(ctx, net, ac, tag, terms, pend, sample=False, init="flat"):
     if not ok:
         return
     bad = check_constraints(ctx, net, ac, desc, init) + reproduce(ctx, net, ac, desc, Fg)
+    if ac and not missing_limits(net):
+        bad += balance(ctx, net, desc, terms, pend)
     if bad and missing_limits(net):
         # recorded finding: with a missing limit the default 1e9 enters the slack variables and PIPS' relative feasibility
         # test accepts points that violate constraints / the power balance.  Classified only if the SAME problem with the
@@ -559,6 +738,20 @@ def gen_case(rng, k):
     if rng.random() < 0.3:
         net.ext_grid["min_p_mw"] = float("nan")
         net.ext_grid["max_q_mvar"] = float("nan")
+    # voltage limits of gens (gen.min_vm_pu / max_vm_pu are OPF constraints on the gen's bus)
+    if len(net.gen) and rng.random() < 0.4:
+        net.gen["max_vm_pu"] = [rng.choice([1.02, 1.03, 1.04, 1.1]) for _ in net.gen.index]
+        net.gen["min_vm_pu"] = [rng.choice([0.9, 0.96, 0.98]) for _ in net.gen.index]
+        if len(net.gen) >= 2 and rng.random() < 0.5:
+            # several gens on one bus: the tightest of their limits counts
+            net.gen.loc[net.gen.index[1], "bus"] = net.gen.bus.iloc[0]
+    # ext_grids with a controllable column: True = the slack voltage is an OPF variable inside the bus limits
+    if rng.random() < 0.3:
+        net.ext_grid["controllable"] = rng.random() < 0.6
+        if rng.random() < 0.2:
+            # an index label that is not the position
+            net.ext_grid.index = [3]
+            net.poly_cost.loc[net.poly_cost.et == "ext_grid", "element"] = 3
     # dcline setpoints of all three kinds: forward (> 0), reverse (< 0) and exactly 0 (treated as reverse)
     for i in net.dcline.index:
         if rng.random() < 0.25:
@@ -587,6 +780,7 @@ def corpus_nets():
 def run(ctx):
     rng = ctx.rng
     terms, pend = [], []
+    LAST["balance_terms"] = 0
     for name, net, ac, init in corpus_nets():
         one_case(ctx, net, ac, "corpus", terms, pend, init=init)
         ctx.count("corpus_cases")
@@ -595,7 +789,7 @@ def run(ctx):
         ac = (k % 4 != 3)
         init = rng.choice(["flat", "pf", "pf", "results"]) if ac else "flat"
         one_case(ctx, net, ac, "ac" if ac else "dc", terms, pend, sample=k < 3, init=init)
-    model = ctx.coq_eval("c16", "Base.QN C16.Model", terms, shard=400)
+    model = ctx.coq_eval("c16", "Base.QN Base.QC C16.Model", terms, shard=400)
     compare(ctx, pend, model)
 
 
@@ -604,6 +798,6 @@ def replay(ctx, rec):
     if "net" in case:
         terms, pend = [], []
         one_case(ctx, pp.from_json_string(case["net"]), case.get("ac", True), "replay", terms, pend, sample=True, init=case.get("init", "flat"))
-        compare(ctx, pend, ctx.coq_eval("c16", "Base.QN C16.Model", terms, shard=400))
+        compare(ctx, pend, ctx.coq_eval("c16", "Base.QN Base.QC C16.Model", terms, shard=400))
     else:
         run(ctx)
